@@ -37,10 +37,11 @@ import unittest
 from .recorders import next_seq
 
 BASE_KINDS = ("kbd", "exit", "kbdsub", "exitsub", "basedirect")
-FAILING = {"fail", "error", "failsub", "mismatch", "eqexc", "sameobj", "emptymulti"} | set(BASE_KINDS)
+FAILING = {"fail", "error", "failsub", "mismatch", "eqexc", "sameobj", "emptymulti", "xfail_err"} | set(BASE_KINDS)
 
 KIND_OUTCOME = {
-    "eqexc": "addError", "sameobj": "addError", "emptymulti": "addError",
+    "eqexc": "addError", "sameobj": "addError", "emptymulti": "addError", "xfail_err": "addError",
+    "skip_empty": "addSkip", "skip2": "addSkip",
     "fail": "addFailure", "failsub": "addFailure", "mismatch": "addFailure",
     "error": "addError", "skip": "addSkip", "skipsub": "addSkip",
     "xfail": "addExpectedFailure", "uxs": "addUnexpectedSuccess",
@@ -306,6 +307,24 @@ def _do_raise(env, case, action, constituent=False):
         except BaseException as e:
             note(e)
             raise
+    if kind == "xfail_err":
+        # expectFailure(reason, predicate): only the test's failure exception is the expected failure,
+        # anything else the predicate raises is that error
+        def erring():
+            raise ValueError("XE:" + tok)
+        try:
+            case.expectFailure(tok, erring)
+        except BaseException as e:
+            note(e)
+            raise
+    if kind == "skip_empty":
+        try:
+            case.skipTest("")               # an explicitly empty reason is a reason
+        except BaseException as e:
+            note(e)
+            raise
+    if kind == "skip2":
+        raise note(case.skipException(tok, "a second argument"))   # the reason is the first argument
     raise AssertionError("unknown kind %r" % (kind,))
 
 
